@@ -67,6 +67,12 @@ def run(tier):
             for p in SUGARS[s]:
                 for tok in toks:
                     singles.append((s, p, tok))
+    # written D-/L- series (own and opposite) with groups that have stereocentres of their own
+    chiral = [t for t in ("Ala", "Asp", "Cys", "Glu", "Lys", "Orn", "Mal", "Thr", "Ser") if t in toks]
+    for pre_s, base_s in (("L-Glc", "Glc"), ("D-Fuc", "Fuc"), ("L-Gal", "Gal"), ("D-Rha", "Rha"), ("L-Man", "Man"), ("D-Glc", "Glc"), ("L-Fuc", "Fuc"), ("D-Ara", "Ara")):
+        SUGARS.setdefault(pre_s, SUGARS[base_s])
+        for tok in (chiral if tier == "thorough" else r.sample(chiral, 2)) + ["Ac", "S"]:
+            singles.append((pre_s, r.choice(SUGARS[base_s]), tok))
     singles = sorted(set(x for x in singles if written_as_intended(orc.drv, x[0], [(x[1], x[2])])))
     # the amine of an amino sugar written as <Sugar>N: a second token at that position meets the amine
     stacking = [("Glc", 2, t) for t in ("Ac", "S", "Me", "Bz", "Pam", "Gc") if t in toks]
